@@ -4,6 +4,8 @@ backwards by the script) vs Model/Aperture.lean + Model/Ema.lean (MonoClock, Ema
 import lbrun
 
 PROPERTY = 'C06'
+import isolation as _iso
+ISOLATION = [(n, getattr(_iso, n)) for n in ['aperture_balancer']]      # instance-isolation obligation (harness/isolation.py)
 COMPONENT = 'aperture'
 QUICK = dict(gen=1800)
 THOROUGH = dict(gen=20000)
